@@ -543,6 +543,9 @@ func (e *Env) templateRules() {
 			continue
 		}
 		recvNil := ir.Bin("==", ir.Param(0), nilOf(types.NewPointer(T.Type())))
+		if e.exportDelegates(rule, ews, ew, exec, gts, recvNil, leavesOf, wrapOf) {
+			continue
+		}
 		// ExportWithString
 		for _, lf := range leavesOf(ews) {
 			cons := e.pathName(fname(ews), lf)
@@ -607,6 +610,57 @@ func (e *Env) templateRules() {
 	}
 }
 
+// exportDelegates decides the other way of sharing the code of the two export methods: ExportWithString(text) is
+// ExportWith(strings.NewReader(text)) - a reader whose full content is text (trusted, like io.Copy) - and
+// ExportWith does the work itself: the reader's failure passed on, a nil report refused with ErrNullPointer,
+// otherwise executeTemplate(receiver, full content). It reports false when ExportWithString has another form.
+func (e *Env) exportDelegates(rule string, ews, ew, exec, gts *types.Func, recvNil *ir.Term, leavesOf func(*types.Func) []*ir.Leaf, wrapOf func(*ir.Term, string) bool) bool {
+	c := e.C
+	sls, err := ir.Leaves(e.P.SSAFunc(ews), ir.LeafOptions{Forward: true, Effects: true, Inline: e.inlineHelpers(exec, gts)})
+	if err != nil || len(sls) != 1 || len(sls[0].Guards) != 0 || len(sls[0].Ret) != 2 {
+		return false
+	}
+	r0, r1 := sls[0].Ret[0], sls[0].Ret[1]
+	if r0.Op != ir.OExtract || r1.Op != ir.OExtract || r0.N != 0 || r1.N != 1 || r0.Args[0].Key() != r1.Args[0].Key() {
+		return false
+	}
+	call := r0.Args[0]
+	if call.Op != ir.OCall || call.Obj != types.Object(ew) || len(call.Args) != 2 || call.Args[0].Key() != ir.Param(0).Key() {
+		return false
+	}
+	rd := call.Args[1]
+	if !isCallOf(rd, "strings.NewReader") || len(rd.Args) != 1 || rd.Args[0].Key() != ir.Param(1).Key() {
+		return false
+	}
+	c.Ok(rule, fname(ews), e.P.Pos(ews.Pos()), "ExportWith(strings.NewReader(text)) of the same report, text unmodified")
+	gcall := ir.Call(gts, ir.Param(1))
+	gerr := &ir.Term{Op: ir.OExtract, N: 1, Args: []*ir.Term{gcall}}
+	gstr := &ir.Term{Op: ir.OExtract, N: 0, Args: []*ir.Term{gcall}}
+	readOK := ir.Bin("==", gerr, nilOf(errorType))
+	ecall := ir.Call(exec, ir.Param(0), gstr)
+	for _, lf := range leavesOf(ew) {
+		cons := e.pathName(fname(ew), lf)
+		if len(lf.Ret) != 2 {
+			continue
+		}
+		switch {
+		case hasGuard(lf, ir.NotCond(readOK)):
+			_, inner, isWrap := sentinelOf(lf.Ret[1])
+			ok := isNilConst(lf.Ret[0]) && isWrap && inner != nil && inner.Key() == gerr.Key()
+			c.Check(ok, rule, cons+" (reader failure)", e.P.Pos(lf.Pos), "(nil, errs.Wrap(err))", "the reader's failure is not passed on as (nil, errs.Wrap(err))")
+		case hasGuard(lf, recvNil):
+			// (refused before or after the read: a nil report yields no output either way; with a failing reader
+			// the read's own error may win, as it does when ExportWith reads first and ExportWithString tests)
+			ok := isNilConst(lf.Ret[0]) && wrapOf(lf.Ret[1], spec.Sentinels["nil-report"])
+			c.Check(ok, rule, cons+" (nil report)", e.P.Pos(lf.Pos), "(nil, errs.Wrap(ErrNullPointer))", "a nil report is not reported as (nil, errs.Wrap(ErrNullPointer))")
+		default:
+			ok := hasGuard(lf, readOK) && hasGuard(lf, ir.NotCond(recvNil)) && lf.Ret[0].Op == ir.OExtract && lf.Ret[0].N == 0 && lf.Ret[0].Args[0].Key() == ecall.Key() && lf.Ret[1].Op == ir.OExtract && lf.Ret[1].N == 1 && lf.Ret[1].Args[0].Key() == ecall.Key()
+			c.Check(ok, rule, cons, e.P.Pos(lf.Pos), "executeTemplate(receiver, the reader's full, unmodified content) after the read succeeded and the nil-report guard", "exporting from a reader is not executeTemplate(receiver, full content of the reader) under a nil-report guard: "+clip(lf.String()))
+		}
+	}
+	return true
+}
+
 // reportHelpers identifies the two unexported template helpers by role:
 // exec = the package function every ExportWithString passes (receiver, text) to;
 // read = the package function every ExportWith passes its io.Reader to.
@@ -646,7 +700,14 @@ func (e *Env) reportHelpers() (exec, read *types.Func) {
 							}
 							cf := call.Call.StaticCallee()
 							callee, _ := cf.Object().(*types.Func)
-							if callee == nil || callee.Pkg() != pk.Types || callee.Type().(*types.Signature).Recv() != nil {
+							if callee == nil || callee.Pkg() != pk.Types {
+								continue
+							}
+							if callee.Type().(*types.Signature).Recv() != nil {
+								// ExportWithString written as ExportWith(strings.NewReader(text)) of the same report
+								if callee == load.MethodOf(T.Type(), "ExportWith") && method == "ExportWithString" {
+									next = append(next, cf)
+								}
 								continue
 							}
 							if want(callee.Type().(*types.Signature)) {
